@@ -28,6 +28,7 @@ type Case struct {
 	Expect  string            `json:"expect,omitempty"` // assertion id expected to fail ("" = none, "panic" = panic)
 	Obs     map[string]string `json:"obs,omitempty"`    // observables predicted by the engine
 	Records map[string]int64  `json:"records,omitempty"`
+	Params  map[string]int    `json:"params,omitempty"`
 }
 
 // Result is printed as one "VFRESULT <json>" line per case.
@@ -87,6 +88,18 @@ func Choose(name string, lo, hi int) int {
 	v := st.c.Chooses[st.nChoose]
 	st.nChoose++
 	return v
+}
+
+// Param is a per-job constant (bounds such as the number of tables); def when unset.
+func Param(name string, def int) int {
+	st.mu.Lock()
+	defer st.mu.Unlock()
+	if st.c != nil {
+		if v, ok := st.c.Params[name]; ok {
+			return v
+		}
+	}
+	return def
 }
 
 func Assume(b bool) {
